@@ -218,7 +218,8 @@ Definition setattr_trait (c : cfg) (t : tcfg) (d : dict) (n : Z) (v : atom) : re
       | inr r => r
       | inl (d1, old, l2) =>
           let changed := t_cmp_none t ||
-                         match old with Some o => negb (o =? value) | None => false end in  (* 2516-2518 *)
+                         match old with Some o => negb (o =? new_value) | None => false end in
+                         (* 2516-2518: `old_value != new_value` — the object actually stored (repair 3fe28c1) *)
           if c_dictfail c then
             (* 2521-2530: Py_XDECREF(old_value); Py_DECREF(name); Py_DECREF(value) *)
             mk d1 (Raise OtherError) 0 (dec value (xdec old l2)) None
